@@ -98,21 +98,16 @@ Proof. intros. exact (lor_add 7 x 5 H). Qed.
 Lemma lor240 x : x < 16 -> N.lor 240 x = 240 + x.
 Proof. intros. exact (lor_add 15 x 4 H). Qed.
 
-(* the xor test of uv__utf8_decode1_slow on three continuation bytes *)
+(* the xor test of uv__utf8_decode1_slow on three continuation bytes: the two
+   top bits of b ^ c ^ d are (b >> 6) ^ (c >> 6) ^ (d >> 6) = 2 ^ 2 ^ 2 = 2 *)
 Lemma xor_test_cont b c d :
   128 <= b <= 191 -> 128 <= c <= 191 -> 128 <= d <= 191 ->
   N.land 192 (N.lxor (N.lxor b c) d) = 128.
 Proof.
-  intros Hb Hc Hd.
-  pose (P := fun b' => forall_below 64 (fun c' => forall_below 64 (fun d' =>
-          N.land 192 (N.lxor (N.lxor (128 + b') (128 + c')) (128 + d')) =? 128))).
-  assert (HP : forall_below 64 P = true) by (vm_compute; reflexivity).
-  pose proof (forall_below_ok 64 P HP (b - 128)) as H1. unfold P in H1.
-  pose proof (forall_below_ok 64 _ (H1 ltac:(simpl; lia)) (c - 128)) as H2. cbv beta in H2.
-  pose proof (forall_below_ok 64 _ (H2 ltac:(simpl; lia)) (d - 128) ltac:(simpl; lia)) as H3.
-  cbv beta in H3. apply N.eqb_eq in H3.
-  replace (128 + (b - 128)) with b in H3 by lia.
-  replace (128 + (c - 128)) with c in H3 by lia.
-  replace (128 + (d - 128)) with d in H3 by lia.
-  exact H3.
+  intros Hb Hc Hd. set (x := N.lxor (N.lxor b c) d).
+  assert (Hx : x / 64 = 2).
+  { rewrite <- shr6. unfold x. rewrite !N.shiftr_lxor, !shr6.
+    replace (b / 64) with 2 by lia. replace (c / 64) with 2 by lia. replace (d / 64) with 2 by lia.
+    reflexivity. }
+  rewrite N.land_comm, land192_byte by lia. lia.
 Qed.
